@@ -58,6 +58,10 @@ func main() {
 		c16(os.Args[2:])
 	case "c18":
 		c18(os.Args[2:])
+	case "c17":
+		c17(os.Args[2:])
+	case "c17run":
+		c17run(os.Args[2:])
 	default:
 		die("unknown subcommand %s", os.Args[1])
 	}
